@@ -1299,7 +1299,15 @@ def mon_c15(im, p):
     if not a.startswith('ok'):
         return {'fail': [], 'nontrivial': False}
     for pre in p.get('poison', [None]):
-        if pre is not None:
+        if isinstance(pre, list):
+            # a list_names generator consumed only partly (stopped inside brackets) / one that dies on an illegal character
+            try:
+                it = iter(im.p.list_names(pre[0]))
+                for _ in range(pre[1]):
+                    next(it)
+            except Exception:
+                pass
+        elif pre is not None:
             try:
                 im.p.parse(pre)
             except Exception:
@@ -1309,6 +1317,27 @@ def mon_c15(im, p):
             fails.append({'signature': 'layout-changes-tree', 'what': f'plain {p["plain"]!r} and decorated {p["decorated"]!r} parse differently'
                           + (f' after {pre!r}' if pre else '') + f': {a[:120]} vs {b[:120]}', 'input': p})
             break
+    return {'fail': fails, 'nontrivial': True}
+
+
+def mon_c15_calls(im, p):
+    """`r.f(a)`, `r | f(a)` and `f(r, a)` denote the same call: same value, same exception class, for receivers of every
+    type (also those the function does not accept)"""
+    fails = []
+    canon = lambda v: '[' + ', '.join(canon(x) for x in v) + ']' if isinstance(v, (list, tuple)) else (repr(sorted(map(str, v))) if isinstance(v, dict) else str(v))
+    for r_src, f, args in p['triples']:
+        a = ', '.join(args)
+        forms = {'fn': f'{f}({r_src}{", " + a if a else ""})', 'method': f'({r_src}).{f}({a})', 'pipe': f'({r_src}) | {f}({a})' if a else f'({r_src}) | {f}'}
+        outs = {}
+        for k, src in forms.items():
+            names = dict(evalimpl.Host({}).fns)
+            names.update({'hs': 'Abc', 'hl': [3, 1, 2], 'hd': {'k': 1}, 'hn': None, 'hb': b'ab', 'hi': 7, 'hstr_upper': str.upper, 'hlist_copy': list.copy})
+            try:
+                outs[k] = 'ok ' + canon(im.p.eval(src, names, max_ops_evaluated=500))
+            except Exception as e:
+                outs[k] = 'raised ' + type(e).__name__
+        if len(set(outs.values())) > 1:
+            fails.append({'signature': 'call-spellings-differ', 'what': f'{forms}: {outs}', 'input': {'triple': [r_src, f, args]}})
     return {'fail': fails, 'nontrivial': True}
 
 
@@ -1601,6 +1630,26 @@ def mon_c19(im, p):
         if arg != L:
             fails.append({'signature': 'shuffle-result-aliases-argument', 'what': f'push(shuffle(l), 99) changed l = {L!r} into {arg!r}', 'input': p})
             arg[:] = L
+        # elements that are only themselves (host objects without value equality, nested lists): the result holds the SAME
+        # elements - a permutation of the list, not of copies of its elements
+        class _Thing:
+            pass
+        idl = [_Thing(), object(), [1], {'k': 1}, _Thing(), (1, [2])]
+        arg = list(idl)
+        try:
+            s = im.p.eval('shuffle(l)', {'l': arg})
+            if sorted(map(id, s)) != sorted(map(id, idl)) or any(x is not y for x, y in zip(arg, idl)):
+                fails.append({'signature': 'shuffle-not-a-permutation-of-the-elements', 'what': 'shuffle of a list of host objects / nested '
+                              f'containers returned {len(s)} elements of which {sum(1 for x in s if any(x is y for y in idl))} are elements of the argument',
+                              'input': p})
+        except Exception as e:
+            fails.append({'signature': 'shuffle-raises:' + type(e).__name__, 'what': f'shuffle of a list of host objects raised {type(e).__name__}', 'input': p})
+        try:
+            x = im.p.eval('rand(l)', {'l': arg})
+            if not any(x is y for y in idl):
+                fails.append({'signature': 'rand-list-not-member', 'what': 'rand(list of host objects) returned something that is not an element', 'input': p})
+        except Exception:
+            pass
         # the argument reached through other expressions than a bare name: an element of a host list / dict, the result of a
         # lambda or of another builtin that hands its argument through
         big = list(L) * 3 + list(L)
@@ -1630,6 +1679,19 @@ def mon_c20(im0, p):
     im = sqimpl.Impl(ns) if p.get('fresh') else im0
     src = p['src']
     fails = []
+    if p.get('pre'):
+        # earlier calls on the same parser (a fully / partly consumed list_names over several lines, a failed parse): the
+        # line in the next message is still counted from the start of ITS text
+        kind, text, k = p['pre']
+        try:
+            if kind == 'names':
+                it = iter(im.p.list_names(text))
+                for _ in range(k):
+                    next(it)
+            else:
+                im.p.parse(text)
+        except Exception:
+            pass
     sqimpl.Impl._last_err_pos = None
     try:
         im.p.parse(src)
@@ -1648,7 +1710,11 @@ def mon_c20(im0, p):
     line = 1 + src.count('\n', 0, pos)
     m = re.search(r'at line (\d+)$', msg)
     if not m or int(m.group(1)) != line:
-        fails.append({'signature': 'wrong-line', 'what': f'offending token at offset {pos} stands on physical line {line}; message {msg!r}', 'input': p})
+        fails.append({'signature': 'wrong-line', 'what': f'offending token at offset {pos} stands on physical line {line}; message {msg[:200]!r}', 'input': p})
+    val = sqimpl.Impl._last_err_val
+    if isinstance(val, str) and val not in ('\n', '\r\n') and val not in msg:
+        fails.append({'signature': 'token-text-missing', 'what': f'the message {msg[:120]!r}… does not contain the text of the offending token '
+                      f'({len(val)} characters: {val[:40]!r}…)', 'input': {'src': src[:200], 'len': len(src)}})
     return {'fail': fails, 'nontrivial': True}
 
 
